@@ -189,6 +189,18 @@ def run_task(task):
     res = TaskResult()
     kind = task["kind"]
     try:
+        if kind == "long":
+            # long strings (packet sized and beyond): patterned content cycling through every byte value,
+            # plain runs, and 0xFF-padded tails of odd and even length
+            for L in (253, 254, 2049, 4096, 64008, 64009, 64010, 70001):
+                pats = [bytes((i * 7 + L) % 256 for i in range(L)), bytes([0x50]) * L,
+                        bytes((0x22 + i % 0x5D) for i in range(L - 5)) + b"\xff" * 5,
+                        bytes((0x7E - i % 0x5D) for i in range(L - 4)) + b"\xff" * 4]
+                for x in pats:
+                    check(c, x)
+                    res.evaluations += 1
+                    res.nontrivial(["long", L, x[:4].hex()])
+            return res
         if kind == "vectors":
             for dec_s, enc_s in VECTORS:
                 dbytes, ebytes = refcodec.to_cp1252(dec_s), refcodec.to_cp1252(enc_s)
@@ -266,7 +278,7 @@ def run_task(task):
 
 
 def plan(tier, seed):
-    tasks = [{"kind": "vectors"}]
+    tasks = [{"kind": "vectors"}, {"kind": "long"}]
     maxlen = MAXLEN[tier]
     for L in range(1, 9):
         tasks.append({"kind": "sweep", "len": L})
